@@ -272,6 +272,9 @@ func snapshotTree(root string, withMtime bool) map[string]string {
 			return nil
 		}
 		d := fmt.Sprintf("%v %o", fi.Mode().Type(), fi.Mode().Perm())
+		if sp := fi.Mode() & (os.ModeSetuid | os.ModeSetgid | os.ModeSticky); sp != 0 {
+			d += fmt.Sprintf(" special=%v", sp)
+		}
 		if st, ok := fi.Sys().(*syscall.Stat_t); ok && (st.Uid != 0 || st.Gid != 0) {
 			d += fmt.Sprintf(" owner=%d:%d", st.Uid, st.Gid)
 		}
